@@ -113,7 +113,8 @@ def traceLoop (env : Env) : Nat → Iter → List String → String
       let pos := match it.position with | some p => fmtPos p | none => "nil"
       traceLoop env fuel it (s!"T:{it.ptnMove}:{fmtMove it.lastMove}:{fmtMove it.move}:{pos}" :: acc)
     | .ok (it, false) =>
-      " ".intercalate (acc.reverse ++ [if it.err.isSome then "F:err" else "F:ok"])
+      -- `R:kept`: every position handed out by `Position()` earlier still shows what it showed then (positions are values)
+      " ".intercalate (acc.reverse ++ [if it.err.isSome then "F:err" else "F:ok", "R:kept"])
 
 def traceOf (env : Env) (f : File) : String :=
   match iterator env f with
